@@ -210,6 +210,8 @@ func genC11(g *gen) {
 	})
 	ordered := pLookup >= 0 && pLookup < pMark && pMark < pLoop && pLoop < pStore && pStore < pFlood
 	g.line("Definition gen_handle_order_lookup_mark_loopcheck_store_flood : bool := %s.", coqBool(ordered))
+	// check-then-act atomicity: the lookup of the key and its insertion lie in ONE write-lock region of f.mu
+	g.line("Definition gen_seen_check_and_mark_in_one_lock_region : bool := %s.", coqBool(floodSeenOneLockRegion(h)))
 	// the seen-by list handed to the flood is the received one plus the local id
 	appendSelf := hasNode(h, func(n ast.Node) bool { return isStmtText(n, "newSeenBy := append(seenBy, f.localID)") })
 	fargs := callArgs(h, "f.floodAdvertisementEncrypted")
@@ -789,4 +791,84 @@ func floodInRangeOver(fd *ast.FuncDecl, over string, pred func(ast.Node) bool) b
 		return true
 	})
 	return found
+}
+
+// floodSeenOneLockRegion: among the top-level statements of HandleRouteAdvertise there is
+//   f.mu.Lock()
+//   if <lookup of f.seenCache[key]> { ... f.mu.Unlock() ... return false }   (the already-seen branch)
+//   f.seenCache[key] = ...                                                    (the mark)
+//   ... f.mu.Unlock()
+// with no top-level f.mu.Unlock()/RUnlock() between the Lock and the mark, the lookup nowhere
+// outside that region, and no read lock of f.mu anywhere in the function.
+func floodSeenOneLockRegion(h *ast.FuncDecl) bool {
+	if h == nil || h.Body == nil {
+		return false
+	}
+	if hasNode(h, func(n ast.Node) bool { return isExprText(n, "f.mu.RLock()") || isExprText(n, "f.mu.RUnlock()") }) {
+		return false
+	}
+	isCall := func(st ast.Stmt, text string) bool {
+		es, ok := st.(*ast.ExprStmt)
+		return ok && norm(src(es.X)) == text
+	}
+	mentionsLookup := func(n ast.Node) bool {
+		found := false
+		ast.Inspect(n, func(x ast.Node) bool {
+			if x != nil && isExprText(x, "f.seenCache[key]") {
+				found = true
+			}
+			return !found
+		})
+		return found
+	}
+	state := 0 // 0: before Lock, 1: locked, 2: lookup seen, 3: marked, 4: unlocked after mark
+	for _, st := range h.Body.List {
+		switch state {
+		case 0:
+			if isCall(st, "f.mu.Lock()") {
+				state = 1
+			} else if mentionsLookup(st) {
+				return false
+			}
+		case 1, 2:
+			if isCall(st, "f.mu.Unlock()") {
+				return false // region ends before the mark
+			}
+			if is, ok := st.(*ast.IfStmt); ok && state == 1 && is.Init != nil && mentionsLookup(is.Init) {
+				// the seen branch must release the lock and return
+				rel := false
+				ret := false
+				for _, b := range is.Body.List {
+					if isCall(b, "f.mu.Unlock()") {
+						rel = true
+					}
+					if _, ok := b.(*ast.ReturnStmt); ok {
+						ret = true
+					}
+				}
+				if !rel || !ret {
+					return false
+				}
+				state = 2
+				continue
+			}
+			if as, ok := st.(*ast.AssignStmt); ok && len(as.Lhs) == 1 && norm(src(as.Lhs[0])) == "f.seenCache[key]" {
+				if state != 2 {
+					return false
+				}
+				state = 3
+			}
+		case 3:
+			if isCall(st, "f.mu.Unlock()") {
+				state = 4
+			} else if isCall(st, "f.mu.Lock()") {
+				return false
+			}
+		case 4:
+			if mentionsLookup(st) {
+				return false
+			}
+		}
+	}
+	return state == 4
 }
